@@ -188,7 +188,19 @@ def run_text_case(tid, text):
         w.start_receive(os.path.join(base, "r"))
         w.run(until=w.done, max_virtual=300.0)
         out = w.recv_cfg.stdout.getvalue()
-        exact = out == repr(text)[1:-1] + "\n"
+        # "reproduced exactly, up to the receiver's terminal-safe escaping": what was printed, read back as the inside of
+        # a Python string literal (either quote style), is the message - and one line, no raw control characters
+        import ast
+        line = out[:-1] if out.endswith("\n") else None
+        exact = False
+        if line is not None and not any(ord(ch) < 32 or ord(ch) == 127 for ch in line):
+            for q in ("'", '"', "'''", '"""'):
+                try:
+                    if ast.literal_eval(q + line + q) == text:
+                        exact = True
+                        break
+                except Exception:
+                    pass
         internal = ["%s: %s" % (type(e).__name__, str(e)[:80]) for _, e in w.internal]
         w.shutdown()
         return {"tid": tid, "kind": "text", "nrec": 0, "variant": 0, "sig": {"fault": "-"}, "chunk": 0, "okS": w.ok("send"),
@@ -248,7 +260,10 @@ def run(prop, tier):
                     got = {"okS": rec["okS"], "okR": rec["okR"], "dest": "src" if rec["destExists"] and rec["equal"] else ("-" if not rec["destExists"] else "other")}
                     if got != exp and len(drift) < 10:
                         drift.append({"tid": tid, "kind": kind, "n": n, "sig": {k: sig[k] for k in ("fault", "at")}, "spec": exp, "real": got})
-        for i, text in enumerate(["hello", " ", "multi\nline\ttab", "ünïcode ☃", "quote'and\"dq", "\x1b[31mred", "x" * 5000]):
+        texts = ["hello", " ", "multi\nline\ttab", "ünïcode ☃", "quote'and\"dq", "\x1b[31mred", "x" * 5000,
+                 # quotes and backslashes at the edges, where a careless un-quoting of repr() goes wrong
+                 "'", '"', "'hello'", '"hello"', 'say "cheese"', "rock 'n'", "''", "\\", "ends with backslash\\", "'\"", "a\x00b", "\x7f"]
+        for i, text in enumerate(texts):
             tid += 1
             records.append(run_text_case(tid, text))
         cov["outcome_drift"] = drift
